@@ -48,7 +48,7 @@ def handleCHP (op : String) (j : Json) : Option (Except String Json) :=
           ("inc_on", Json.bool r.incOn), ("inc_start", Json.bool r.incStart), ("heat", Json.bool r.heat),
           ("fuel", match r.fuel with | some f => Json.str f | none => Json.null),
           ("heat_idx", jNat L.heatIdx), ("on_idx", jNat L.onIdx), ("start_idx", jNat L.startIdx),
-          ("n_commit_rows", jNat r.commitRows.length), ("commit_ok", Json.bool r.commitOK)])])
+          ("n_commit_rows", jNat r.commitRows.length), ("commit_ok", Json.bool r.commitOK), ("fuel_ok", Json.bool r.fuelOK)])])
   | "uc_accepts" => do
     let p : UC.UCP := { R := ← field j "R" Json.getNat?, D := ← field j "D" Json.getNat?,
                         tar := ← field j "tar" Json.getNat?, tao := ← field j "tao" Json.getNat? }
